@@ -66,6 +66,14 @@ def instances(tier: str) -> list[dict]:
     for verb, direction, exc in (SHAPES if tier == "thorough" else SHAPES[::4]):
         ls = LayerSpec(layers, verb, "access" if direction == "import" else "accessed", exc, "L0", ("L1",))
         add(N4, ("layer", ls.as_json()), ls.label())
+    # module names that differ only in letter case (legal on a case-sensitive file system): every line of a report
+    # must still have its place
+    NCASE = ["p", "p.h", "p.H", "p.c"]
+    for verb, direction, exc in (("should_not", "import", False), ("should_only", "import", True)):
+        s = RuleSpec(verb, direction, exc, "named", ("p.h", "p.H"), "named", ("p.c",))
+        add(NCASE, ("rule", s.as_json()), "case-twins " + s.label())
+    s = RuleSpec("should_not", "import", False, "sub", ("p",), "named", ("p.c",))
+    add(NCASE, ("rule", s.as_json()), "case-twins " + s.label())
     # a package and one of its own sub packages listed in DIFFERENT layers: whatever the library makes of a module below
     # both (today: LayerMismatch), it must not depend on how the set of candidate layers is iterated
     nested_layers = (("L0", "names", ("a",)), ("L1", "names", ("a.x",)), ("L2", "names", ("b",)))
